@@ -171,6 +171,23 @@ PROPS["C07"] = dict(
                "Known finding: go-pfcp OuterHeaderCreation C-TAG/S-TAG decode panic (dependency).",
 )
 
+PROPS["C16"] = dict(
+    module="UpfVerif.Props.C16",
+    streams=[dict(name="flowdesc", shards_thorough=8, seed_per_shard=True, timeout_thorough=3000)],
+    rule="grammar-generated rules (every protocol 0..300 and 'ip', every prefix length 0..40 once; then random rules: hosts, prefixes, any/assigned, port lists "
+         "of 1..8 items with ports/ranges at boundaries 0/65535/65536, leading zeros, arbitrary Go white-space runs) + near misses (dropped/duplicated/swapped "
+         "tokens, bad octets, empty fields) + arbitrary ASCII and arbitrary bytes + IPv6 literals (outside the model: only 'no fault'); distinct = distinct input strings",
+    trusted_base=["Spec/IPFilterRule.lean: abstract syntax, rendering and denotation of the supported IPFilterRule form",
+                  "Model/FlowDesc.lean: model of flowdesc.go and of the Go library functions it uses (strings.Fields, ParseUint, net.ParseCIDR/ParseIP for IPv4), "
+                  "tied by the differential stream 'flowdesc' on the real ParseFlowDesc"],
+    assumptions=["ASCII input without ':' / '%' in address tokens is modelled; IPv6 literals are only checked for 'no fault' on the implementation"],
+    level_text="Kernel-checked (Props/C16.lean): parse_render — for every rule of the grammar, every decimal spelling of its numerals and every spacing, "
+               "the model of ParseFlowDesc returns exactly the filter the rule denotes (addresses incl. masking, all 256 octets and 33 prefix lengths by evaluation, "
+               "ports by induction over digit lists and item lists); parse_total; pack_unpack for the port words. Tie: 20k (quick) / 5M (thorough) strings on the real parser.",
+    level_note="Trusted: Lean kernel; the grammar/denotation spec; the model of the Go standard-library functions (checked against Go on every run, not proved equal). "
+               "The netlink packing of the filter (attribute layout, src/dst swap) is part of C02's S-drv stream.",
+)
+
 # properties not claimed yet (kept current; every property has a planned executable model, see DESIGN.md)
 NOT_APPLICABLE = {}
 for _i in range(1, 21):
